@@ -21,8 +21,16 @@ class OpaqueCall:
         return f"OpaqueCall({self.recv!r}.{self.name})"
 
 
+def force_lazy(st, v):
+    """A lazily decoded value (an object with `py_force(st)`, e.g. a size tuple whose arity is symbolic) is
+    decoded -- forking over its cases -- only when it is handed to an opaque callee."""
+    f = getattr(v, "py_force", None)
+    return f(st) if f is not None else v
+
+
 def encode_arg(st, v):
     """Encode an argument value as a list of z3 terms (for uninterpreted-function application)."""
+    v = force_lazy(st, v)
     if isinstance(v, (SOpt, V.SCases)):
         v = st.force(v)  # forks only when both cases are possible; canonical encoding either way
     if v is None:
@@ -172,7 +180,7 @@ class Protocol:
     def call_quiet(self, st, recv, name, vals):
         """The value a call would return, without logging it in the ghost call trace or bumping versions."""
         m = self.methods[name]
-        vals = {**m.defaults, **vals}
+        vals = {k: force_lazy(st, v) for k, v in {**m.defaults, **vals}.items()}
         vals = {k: (st.force(v) if isinstance(v, V.SCases) else v) for k, v in vals.items()}
         terms = []
         for p in m.params:
@@ -232,6 +240,7 @@ class Protocol:
             if p not in vals:
                 raise PyRaise(SExc(TypeError, (f"{name}: missing argument {p}",)))
         # a size argument of unknown arity is case-split here: (), (c,), (c, r)
+        vals = {k: force_lazy(st, v) for k, v in vals.items()}
         vals = {k: (st.force(v) if isinstance(v, V.SCases) else v) for k, v in vals.items()}
         if m.raises_any:
             classes = m.raises_any if isinstance(m.raises_any, tuple) else ((m.raises_any,) if isinstance(m.raises_any, type) else (Exception,))
